@@ -26,8 +26,12 @@ Definition git_match_file (p f : bytes) : bool :=
 Definition git_match_dir (p f : bytes) : bool :=
   bytes_eq p (strip_slash f) || has_prefix p (strip_slash f ++ [SLASH]).
 
-Definition git_sel (filters : list bytes) (p : bytes) : bool :=
-  match filters with [] => true | _ => existsb (git_match_file p) filters end.
+(* a gitlink is matched like a directory ("sub/" selects the gitlink sub) *)
+Definition git_match_entry (n : node) (p f : bytes) : bool :=
+  match n with NDir _ | NSub => git_match_dir p f | _ => git_match_file p f end.
+
+Definition git_sel (n : node) (filters : list bytes) (p : bytes) : bool :=
+  match filters with [] => true | _ => existsb (git_match_entry n p) filters end.
 
 Definition git_tar_mode (n : node) : Z :=
   match n with
@@ -63,16 +67,13 @@ Fixpoint git_walk (mode : node -> Z) (prefix : bytes) (filters : list bytes) (ba
        | [] => []
        | inner => git_entry mode (prefix ++ p) n :: inner
        end
-     | _ => if git_sel filters p then [git_entry mode (prefix ++ p) n] else []
+     | _ => if git_sel n filters p then [git_entry mode (prefix ++ p) n] else []
      end) ++ git_walk mode prefix filters base rest
   end.
 
 (* path_exists for one pathspec *)
 Definition git_path_exists (f : forest) (flt : bytes) : bool :=
-  existsb (fun pn => match snd pn with
-                     | NDir _ => git_match_dir (fst pn) flt
-                     | _ => git_match_file (fst pn) flt
-                     end) (walk [] f).
+  existsb (fun pn => git_match_entry (snd pn) (fst pn) flt) (walk [] f).
 
 (* trailing slashes of the prefix collapse to one for its directory entry *)
 Fixpoint drop_slashes (r : bytes) : bytes :=
